@@ -205,8 +205,24 @@ def compare(w: World, part: Part, hist: list, config: str) -> bool:
         part.violation(f"{config}|{cls}|{clause}|last={last[0]}:{last[1]}",
                        {"config": config, "history": hist, "clause": clause, "detail": detail})
 
+    def point_reads(sid: int, truth: tuple, when: str) -> None:
+        for t in truth[1]:
+            g = oc(A.get_trial, t._trial_id)
+            part.add("getter_answers_compared")
+            if g[0] == "err" or trial_canon(g[1], None) != trial_canon(t, None):
+                fail(f"get_trial-stale-or-raises{when}", t._trial_id)
+            g2 = oc(A.get_trial_id_from_study_id_trial_number, sid, t.number)
+            if g2 != ("ok", t._trial_id):
+                fail(f"number-lookup-wrong{when}", (t.number, g2))
+
+    # the point getters first: a full read refreshes the cache and would heal a stale entry before
+    # it is looked at (they do not touch the cache themselves)
+    truths = {sid: oc(R.get_all_trials, sid, deepcopy=False) for sid in w.sids}
+    for sid in w.sids:
+        if truths[sid][0] == "ok":
+            point_reads(sid, truths[sid], "-before-full-read")
     for si, sid in enumerate(w.sids):
-        truth = oc(R.get_all_trials, sid, deepcopy=False)
+        truth = truths[sid]
         for fname, f in FILTERS.items():
             if w.path is not None and fname != "none" and (si, fname) != (0, ("running", "waiting", "finished")[len(hist) % 3]):
                 continue  # SQLite-backed (slow): one filtered variant per step, rotating; they share one code path
@@ -232,14 +248,7 @@ def compare(w: World, part: Part, hist: list, config: str) -> bool:
                     fields = sorted({x[0] for a, b in zip(gl, want) for x, y in zip(a, b) if x != y})
                     fail(f"get_all_trials[{fname}]-stale:{','.join(fields)}", "")
         if truth[0] == "ok":
-            for t in truth[1]:
-                g = oc(A.get_trial, t._trial_id)
-                part.add("getter_answers_compared")
-                if g[0] == "err" or trial_canon(g[1], None) != trial_canon(t, None):
-                    fail("get_trial-stale-or-raises", t._trial_id)
-                g2 = oc(A.get_trial_id_from_study_id_trial_number, sid, t.number)
-                if g2 != ("ok", t._trial_id):
-                    fail("number-lookup-wrong", (t.number, g2))
+            point_reads(sid, truth, "")
             g3 = oc(A.get_trial_id_from_study_id_trial_number, sid, len(truth[1]))
             if g3[0] != "err":
                 fail("number-lookup-serves-nonexistent-number", g3)
